@@ -187,10 +187,10 @@ def make_mp(sched):
     return types.SimpleNamespace(Queue=Queue, Process=lambda target, args: MProcess(sched, target, args))
 
 
-def make_task(fail_at):
+def make_task(fail_at, fail_at2=-1):
     def task(i, arg, *, equilibrium, psi, f_R, f_Z, **kw):
-        # fail_at is a symbolic integer: the solver decides which task (if any) fails on this path; only the first map call fails
-        if kw.get("extra") == "call0" and i == fail_at:
+        # fail_at (and fail_at2) are symbolic integers: the solver decides which tasks (if any) fail on this path; only the first map call fails
+        if kw.get("extra") == "call0" and (i == fail_at or i == fail_at2):
             raise RuntimeError("task %d failed" % i)
         return ("F", i, arg, kw.get("extra"))
     return task
@@ -202,14 +202,15 @@ class _Eq:
     f_Z = "f_Z"
 
 
-def _mk(nworkers, ntasks, ncalls=1, may_fail=True, fix_later_calls=False):
+def _mk(nworkers, ntasks, ncalls=1, may_fail=True, fix_later_calls=False, nfail=1):
     def body(env):
         # position of the failing task: -1 = none.  Symbolic; resolved by the solver where the task code compares with it.
         fail_at = env.int("fail_at", lo=-1, hi=ntasks - 1) if may_fail else -1
         sched = Sched(env)
         mp = make_mp(sched)
         dill = types.SimpleNamespace(dumps=lambda x: x, loads=lambda x: x)
-        task = make_task(fail_at)
+        fail_at2 = env.int("fail_at2", lo=-1, hi=ntasks - 1) if nfail > 1 else -1
+        task = make_task(fail_at, fail_at2)
         args = [(i, "a%d" % i) for i in range(ntasks)]
         # serial reference (np == 1 path of the same class), one entry per call
         serial = pm.ParallelMap(1, equilibrium=_Eq())
@@ -336,6 +337,13 @@ for _nw, _nt, _tier in [(2, 1, "quick"), (2, 2, "quick"), (3, 2, "thorough"), (2
                                "the caller gets the exception; never blocks, never a spurious error",
                           encodes=ENC, stubs=["multiprocessing -> FIFO/baton model", "dill -> identity"],
                           bounds="%d workers, %d tasks, failing index in -1..%d" % (_nw, _nt, _nt - 1), max_paths=2000000,
+                          wall_s=900 if _tier == "quick" else 3400))
+for _nw, _nt, _tier in [(2, 2, "quick"), (3, 3, "thorough")]:
+    OBLIGATIONS.append(Ob("two_failures_w%d_t%d" % (_nw, _nt), _mk(_nw, _nt, nfail=2), tier=_tier, family="interleavings x failing position",
+                          desc="up to two failing tasks at symbolic positions: for every interleaving (hence every completion order of the failures) the "
+                               "caller gets the exception the serial map raises, i.e. that of the first failing task in task order",
+                          encodes=ENC, stubs=["multiprocessing -> FIFO/baton model", "dill -> identity"],
+                          bounds="%d workers, %d tasks, two failing indices each in -1..%d" % (_nw, _nt, _nt - 1), max_paths=2000000,
                           wall_s=900 if _tier == "quick" else 3400))
 OBLIGATIONS.append(Ob("two_calls_w2_t1", _mk(2, 1, ncalls=2), tier="quick", family="interleavings x failing position",
                       desc="two consecutive map calls on one ParallelMap (leftovers of the first call must not leak into the second)",
